@@ -352,3 +352,38 @@ func AfterRead(v *idl.Val) (out *idl.Val, ok bool) {
 	}
 	return walk(v), ok
 }
+
+// DeepCanon is Canon with nil and empty containers (and empty binary) identified at every depth.
+func DeepCanon(v *idl.Val) string {
+	var norm func(v *idl.Val) *idl.Val
+	norm = func(v *idl.Val) *idl.Val {
+		if v == nil {
+			return nil
+		}
+		switch v.Cat {
+		case "list", "set":
+			o := &idl.Val{Cat: v.Cat, L: []*idl.Val{}}
+			for _, e := range v.L {
+				o.L = append(o.L, norm(e))
+			}
+			return o
+		case "map":
+			o := &idl.Val{Cat: v.Cat, M: [][2]*idl.Val{}}
+			for _, e := range v.M {
+				o.M = append(o.M, [2]*idl.Val{norm(e[0]), norm(e[1])})
+			}
+			return o
+		case "struct":
+			o := &idl.Val{Cat: "struct", Def: v.Def, F: map[int32]*idl.Val{}}
+			for id, x := range v.F {
+				if (x.Cat == "list" || x.Cat == "set") && len(x.L) == 0 || x.Cat == "map" && len(x.M) == 0 || x.Cat == "binary" && x.S == "" {
+					continue
+				}
+				o.F[id] = norm(x)
+			}
+			return o
+		}
+		return v
+	}
+	return norm(v).Canon()
+}
